@@ -20,9 +20,9 @@ func (*C02) Rule() string {
 }
 
 func (*C02) Plan(tier string) orch.Plan {
-	n := 300
+	n := 6000
 	if tier == "thorough" {
-		n = 40000
+		n = 400000
 	}
 	return orch.Plan{Episodes: n, Batch: 1}
 }
